@@ -881,7 +881,7 @@ class AbstractFeatureIntervalCollection(AbstractInterval, ABC):
         primary_feature = None
         for i, interval in enumerate(intervals):
             if interval.is_primary_feature:
-                if primary_feature:
+                if primary_feature is not None:
                     raise ValidationException("Multiple primary features/transcripts found")
                 primary_feature = intervals[i]
         # if no primary interval was given, then infer by longest CDS then longest interval
